@@ -10,7 +10,7 @@
 (* Implementation layer: KeyOf(m,tags) = the key PredicateSeriesIDIterator hands to the matcher               *)
 (*   (`name,\x00=name,k=v,...`, models.MakeKey escaping: measurement escapes , and space; tag keys/values      *)
 (*   escape , space and =), PopTag = predicatePopTagEscape, Upd = the memoising three-valued tree update,     *)
-(*   MatcherModel = predicateMatcher.Matches.                                                                 *)
+(*   MatcherModel = predicateMatcher.Matches (which first discards the bare name: SkipName).                  *)
 (* Input-shaped: Init enumerates (series, predicate) pairs, the state is the case; `want` is the oracle,      *)
 (* `impl` the verdict of the modelled algorithm (a difference is a lead that the replay must confirm).        *)
 EXTENDS Integers, Sequences, FiniteSets, TLC
@@ -23,7 +23,9 @@ CONSTANTS MeasSet,     \* measurement names
           LeafMode,    \* "series": leaves use the series' own keys/values/name plus PredKeys/PredVals;
                        \* "fixed": leaves use only PredKeys (and _measurement) and PredVals
           PredKeys,    \* tag keys predicates refer to (besides _measurement)
-          PredVals     \* values predicates compare with
+          PredVals,    \* values predicates compare with
+          SkipName     \* TRUE: Matches discards the leading bare measurement name before feeding pairs (the code since
+                       \* the repair of F36); FALSE: as found, the name is popped like a tag pair (lead config)
 
 VARIABLES meas, tags, pred, key, want, impl
 vars == <<meas, tags, pred, key, want, impl>>
@@ -146,7 +148,9 @@ Run(p, rest, vals, c) ==
          ELSE LET v2 == [vals EXCEPT ![pt.tag] = pt.val]
                   u  == Upd(p, <<>>, v2, c)
               IN IF u.r = "T" THEN TRUE ELSE IF u.r = "F" THEN FALSE ELSE Run(p, pt.rest, v2, u.c)
-MatcherModel(p, k) == Run(p, k, [x \in LeafKeys(p) |-> Nil], [q \in Paths |-> "NM"])
+\* the key without its leading element (the bare measurement name, which is not a tag pair)
+TagPart(k) == IF k = <<>> THEN k ELSE PopTag(k).rest
+MatcherModel(p, k) == Run(p, IF SkipName THEN TagPart(k) ELSE k, [x \in LeafKeys(p) |-> Nil], [q \in Paths |-> "NM"])
 
 \* ---------------------------------------------------------------- predicates enumerated for a series
 KeysFor(ts) == (IF LeafMode = "series" THEN {ts[i].k : i \in 1..Len(ts)} ELSE {}) \cup {MEAS} \cup PredKeys
@@ -172,14 +176,14 @@ Next == UNCHANGED vars
 Spec == Init /\ [][Next]_vars
 
 \* ---------------------------------------------------------------- properties of the model
-\* The key round-trips: popping the key gives back exactly the measurement (under \x00) and the tags, in order,
-\* EXCEPT that the leading bare measurement name is popped too and, when it contains '=', yields a spurious pair.
+\* The key round-trips: after the leading bare measurement name, popping the key gives back exactly the measurement
+\* (under \x00) and the tags, in order -- also for names containing '=' (not escaped in a measurement name).
 RECURSIVE PopAll(_)
 PopAll(s) == IF s = <<>> THEN <<>>
              ELSE LET pt == PopTag(s) IN (IF pt.has THEN <<[k |-> pt.tag, v |-> pt.val]>> ELSE <<>>) \o PopAll(pt.rest)
 MeasHasEq == \E i \in 1..Len(meas) : meas[i] = "eq"
-KeyRoundTrips == (~MeasHasEq) => PopAll(key) = <<[k |-> MEAS, v |-> meas]>> \o tags
-\* the modelled algorithm computes the contract, except for the spurious pair of an '='-bearing measurement name
-ModelAgreesUnlessMeasEq == (~MeasHasEq) => (impl = want)
+KeyRoundTrips == PopAll(TagPart(key)) = <<[k |-> MEAS, v |-> meas]>> \o tags
+\* the modelled algorithm computes the contract (with SkipName = FALSE this fails exactly for '='-bearing names: F36)
 ModelAgrees == impl = want
+ModelAgreesUnlessMeasEq == (~MeasHasEq) => (impl = want)
 =============================================================================
